@@ -476,7 +476,7 @@ fn exec<'a>(rec: &mut Recorder, table: &'a [SetEntry], st: &mut St<'a>, line: &s
     let ans = match hx_common::catch(|| exec_inner(rec, table, st, &t, line)) {
         Ok(a) => a,
         Err(_) => {
-            rec.fail("panic", line);
+            pend("panic", line);
             "panic".to_string()
         }
     };
@@ -485,6 +485,15 @@ fn exec<'a>(rec: &mut Recorder, table: &'a [SetEntry], st: &mut St<'a>, line: &s
         NONTRIVIAL.set(true);
     }
     rec.op(line, &ans);
+    // report failures only now, so that the failing case text includes this op line
+    for (class, detail) in PENDING.with_borrow_mut(std::mem::take) {
+        rec.fail(&class, &detail);
+    }
+}
+
+thread_local! { static PENDING: std::cell::RefCell<Vec<(String, String)>> = const { std::cell::RefCell::new(vec![]) }; }
+fn pend(class: &str, detail: &str) {
+    PENDING.with_borrow_mut(|p| p.push((class.to_string(), detail.to_string())));
 }
 
 fn exec_inner<'a>(rec: &mut Recorder, table: &'a [SetEntry], st: &mut St<'a>, t: &[&str], line: &str) -> String {
@@ -501,7 +510,7 @@ fn exec_inner<'a>(rec: &mut Recorder, table: &'a [SetEntry], st: &mut St<'a>, t:
             ds.sort();
             ds.dedup();
             if ds.len() != table.len() {
-                rec.fail("duplicate_instruction_discriminants", line);
+                pend("duplicate_instruction_discriminants", line);
             }
             format!("ok {}", discs.len())
         }
@@ -520,11 +529,11 @@ fn exec_inner<'a>(rec: &mut Recorder, table: &'a [SetEntry], st: &mut St<'a>, t:
             st.shape = Some(real_shape.clone());
             // oracle: the static facts
             if min != o_min_len(&real_shape) {
-                rec.fail("min_len_wrong", &format!("{line}: MIN_LEN={min}, shape says {}", o_min_len(&real_shape)));
+                pend("min_len_wrong", &format!("{line}: MIN_LEN={min}, shape says {}", o_min_len(&real_shape)));
             }
             let want_len = o_fixed_len(&real_shape).unwrap_or(100);
             if len != want_len {
-                rec.fail("account_len_wrong", &format!("{line}: AccountLen={len}, shape says {want_len}"));
+                pend("account_len_wrong", &format!("{line}: AccountLen={len}, shape says {want_len}"));
             }
             format!("ok min={min} len={len} copt={}", copt as u8)
         }
@@ -542,10 +551,10 @@ fn exec_inner<'a>(rec: &mut Recorder, table: &'a [SetEntry], st: &mut St<'a>, t:
             let got = real_metas(&st.metas);
             let mut want = vec![];
             if o_metas(&shape, &v, &mut want).is_none() || want != got {
-                rec.fail("client_metas_differ_from_spec", &format!("{line}: got {} want {}", fmt_metas(&got), fmt_metas(&want)));
+                pend("client_metas_differ_from_spec", &format!("{line}: got {} want {}", fmt_metas(&got), fmt_metas(&want)));
             }
             if got.len() < (e.statics)().0 && !o_ambiguous(&shape, &v) {
-                rec.fail("fewer_metas_than_min_len", &format!("{line}: {} < MIN_LEN", got.len()));
+                pend("fewer_metas_than_min_len", &format!("{line}: {} < MIN_LEN", got.len()));
             }
             format!("ok {}", fmt_metas(&got))
         }
@@ -587,19 +596,19 @@ fn exec_inner<'a>(rec: &mut Recorder, table: &'a [SetEntry], st: &mut St<'a>, t:
             match res {
                 Err(c) => {
                     st.ix = None;
-                    rec.fail("make_instruction_failed", line);
+                    pend("make_instruction_failed", line);
                     c
                 }
                 Ok(ix) => {
                     // oracle: the instruction is (program id, the same metas, disc ++ borsh(decode args) ++ borsh(run args))
                     if ix.program_id != PID || ix.accounts != st.metas {
-                        rec.fail("instruction_metas_differ_from_extend_account_metas", line);
+                        pend("instruction_metas_differ_from_extend_account_metas", line);
                     }
                     let mut want = (e.disc)().to_vec();
                     o_ser_arg(&darg, &mut want);
                     want.extend(borsh::to_vec(&run).unwrap());
                     if ix.data != want {
-                        rec.fail("instruction_data_layout", line);
+                        pend("instruction_data_layout", line);
                     }
                     let out = format!("ok {}", hex(&ix.data));
                     st.ix = Some((ix, run, darg));
@@ -637,20 +646,20 @@ fn exec_inner<'a>(rec: &mut Recorder, table: &'a [SetEntry], st: &mut St<'a>, t:
             // becomes an oracle failure with this case as its failing input instead of killing the harness
             if CRASHES.get() >= 3 {
                 // this (mutated) tree keeps hanging / crashing: do not wait for every further run
-                rec.fail("run_crashes_or_hangs", "(skipped after 3 crashes)");
+                pend("run_crashes_or_hangs", "(skipped after 3 crashes)");
                 st.run = Some(RunOut { reached_process: false, cpi: None });
                 return "crash".into();
             }
             let real = match isolated(|| run_real(e, &specs, n, &ix.data).to_json()) {
                 Ok(v) if v.as_str() == Some("panic") => {
-                    rec.fail("run_panics", &rec.current_case_text());
+                    pend("run_panics", &rec.current_case_text());
                     st.run = Some(RunOut { reached_process: false, cpi: None });
                     return "panic".into();
                 }
                 Ok(v) => Real::from_json(&v).expect("child result parses"),
                 Err(how) => {
                     CRASHES.set(CRASHES.get() + 1);
-                    rec.fail("run_crashes_or_hangs", &format!("{how}: set {} client {client}", e.name));
+                    pend("run_crashes_or_hangs", &format!("{how}: set {} client {client}", e.name));
                     st.run = Some(RunOut { reached_process: false, cpi: None });
                     return "crash".into();
                 }
@@ -667,16 +676,16 @@ fn exec_inner<'a>(rec: &mut Recorder, table: &'a [SetEntry], st: &mut St<'a>, t:
             let in_claim = !ambiguous && arg_fits && (st.extras.is_empty() || !o_has_rest(&shape));
             match direct {
                 Direct::DataErr => {
-                    rec.fail("instruction_data_does_not_deserialize", line);
+                    pend("instruction_data_does_not_deserialize", line);
                     st.run = Some(RunOut { reached_process: false, cpi: None });
                     "err:data".into()
                 }
                 Direct::DecodeErr(c) => {
                     if in_claim {
-                        rec.fail("client_instruction_fails_to_decode", &format!("{} -> {c}", rec.current_case_text()));
+                        pend("client_instruction_fails_to_decode", &format!("{} -> {c}", rec.current_case_text()));
                     }
                     if entry_class != c {
-                        rec.fail("entry_path_differs_from_direct_decode", &format!("{entry_class} vs {c}"));
+                        pend("entry_path_differs_from_direct_decode", &format!("{entry_class} vs {c}"));
                     }
                     st.run = Some(RunOut { reached_process: false, cpi: None });
                     if c == "err:Custom9004" { "err:notenough".into() } else { c }
@@ -689,10 +698,10 @@ fn exec_inner<'a>(rec: &mut Recorder, table: &'a [SetEntry], st: &mut St<'a>, t:
                     if in_claim {
                         let want_rem = if o_has_rest(&shape) { 0 } else { st.extras.len() };
                         if used + want_rem != n || rem != want_rem {
-                            rec.fail("decode_consumed_count_differs_from_client_metas", &format!("used {used} of {} metas, {rem} left", ix.accounts.len()));
+                            pend("decode_consumed_count_differs_from_client_metas", &format!("used {used} of {} metas, {rem} left", ix.accounts.len()));
                         }
                         if Some(o_to_client(&valx)) != o_resolve(&shape, &client) {
-                            rec.fail("decoded_set_differs_from_client_value", &format!("client {client} decoded {val}"));
+                            pend("decoded_set_differs_from_client_value", &format!("client {client} decoded {val}"));
                         }
                         let should_pass = !tampered && !o_wrong_fixed(&shape, &client);
                         if should_pass && vc != "ok" {
@@ -701,21 +710,21 @@ fn exec_inner<'a>(rec: &mut Recorder, table: &'a [SetEntry], st: &mut St<'a>, t:
                             } else {
                                 "client_flags_insufficient_for_validation"
                             };
-                            rec.fail(class, &format!("set {} client {client} -> validation {v}", e.name));
+                            pend(class, &format!("set {} client {client} -> validation {v}", e.name));
                         }
                         if !should_pass && vc == "ok" {
-                            rec.fail("validation_accepts_missing_flag_or_wrong_address", &format!("client {client} drops {:?}", st.drops));
+                            pend("validation_accepts_missing_flag_or_wrong_address", &format!("client {client} drops {:?}", st.drops));
                         }
                     }
                     if entry_class != v {
-                        rec.fail("entry_path_differs_from_direct_decode", &format!("{entry_class} vs {v}"));
+                        pend("entry_path_differs_from_direct_decode", &format!("{entry_class} vs {v}"));
                     }
                     if vc == "ok" {
                         if trace.val.as_deref() != Some(val.as_str()) {
-                            rec.fail("process_saw_a_different_set", &format!("{:?} vs {val}", trace.val));
+                            pend("process_saw_a_different_set", &format!("{:?} vs {val}", trace.val));
                         }
                         if trace.run.as_ref() != Some(&run) {
-                            rec.fail("run_args_do_not_round_trip", &format!("{:?} vs {run:?}", trace.run));
+                            pend("run_args_do_not_round_trip", &format!("{:?} vs {run:?}", trace.run));
                         }
                     }
                     let args = trace.run.as_ref().map(fmt_args).unwrap_or_else(|| "-".into());
@@ -741,21 +750,21 @@ fn exec_inner<'a>(rec: &mut Recorder, table: &'a [SetEntry], st: &mut St<'a>, t:
                     // ---- oracle
                     let client_metas = real_metas(&ix.accounts);
                     if in_claim && metas != client_metas {
-                        rec.fail("cpi_metas_differ_from_client_metas", &format!("cpi {} client {}", fmt_metas(&metas), fmt_metas(&client_metas)));
+                        pend("cpi_metas_differ_from_client_metas", &format!("cpi {} client {}", fmt_metas(&metas), fmt_metas(&client_metas)));
                     }
                     if infos.len() != metas.len() || infos.iter().zip(&metas).any(|(i, m)| *i != m.0) {
-                        rec.fail("cpi_infos_do_not_match_cpi_metas", &format!("infos {infos:?} metas {}", fmt_metas(&metas)));
+                        pend("cpi_infos_do_not_match_cpi_metas", &format!("infos {infos:?} metas {}", fmt_metas(&metas)));
                     }
                     let (_, len, _) = (e.statics)();
                     let want_decl = if len == 100 { 64 } else { len };
                     if r.declared_len != want_decl || (len != 100 && metas.len() != len) {
-                        rec.fail("cpi_written_count_differs_from_declared_length", &format!("declared {} written {} AccountLen {len}", r.declared_len, metas.len()));
+                        pend("cpi_written_count_differs_from_declared_length", &format!("declared {} written {} AccountLen {len}", r.declared_len, metas.len()));
                     }
                     // program id: the program account's key when the set has optionals, else the explicit override
                     // (passed when run arg `c` is set) or the program's own id
                     let want_pid = if !(e.statics)().2 && run_args.c { crate::sets::OVERRIDE_ID } else { PID };
                     if r.program_id != want_pid || r.data != ix.data {
-                        rec.fail("cpi_program_or_data_differs_from_client", &format!("program id {} data {}", r.program_id, hex(&r.data)));
+                        pend("cpi_program_or_data_differs_from_client", &format!("program id {} data {}", r.program_id, hex(&r.data)));
                     }
                     // never more privilege than the static meta of the account it stands for
                     if in_claim {
@@ -763,7 +772,7 @@ fn exec_inner<'a>(rec: &mut Recorder, table: &'a [SetEntry], st: &mut St<'a>, t:
                         let _ = o_metas(&shape, &client, &mut want);
                         for (m, w) in metas.iter().zip(&want) {
                             if (m.1 && !w.1) || (m.2 && !w.2) {
-                                rec.fail("cpi_asks_more_privilege_than_static_meta", &format!("{m:?} vs {w:?}"));
+                                pend("cpi_asks_more_privilege_than_static_meta", &format!("{m:?} vs {w:?}"));
                             }
                         }
                     }
@@ -771,9 +780,9 @@ fn exec_inner<'a>(rec: &mut Recorder, table: &'a [SetEntry], st: &mut St<'a>, t:
                 }
                 (c, _) => {
                     if c == "err:Custom1006" && has_absent && !(e.statics)().2 && o_has_opt(&shape) {
-                        rec.fail("cpi_absent_option_without_program_account", &format!("set {} client {client}: CPI -> {c}", e.name));
+                        pend("cpi_absent_option_without_program_account", &format!("set {} client {client}: CPI -> {c}", e.name));
                     } else {
-                        rec.fail("cpi_fails", &format!("set {} client {client}: CPI -> {c}", e.name));
+                        pend("cpi_fails", &format!("set {} client {client}: CPI -> {c}", e.name));
                     }
                     if c == "err:Custom1006" { "err:missingprog".into() } else { c.to_string() }
                 }
